@@ -27,6 +27,8 @@ func runC01(c *Ctx, r *Report) {
 	c01TSVUse(c, r)
 	c01CSV(c, r)
 	c01CSVWholeFieldWrites(c, r)
+	c01SuffixOnPieces(c, r)
+	c01ReusedBuffers(c, r)
 	c01DKVPX(c, r)
 	c01JSON(c, r)
 	c01Void(c, r)
